@@ -321,6 +321,8 @@ func (cc *caseCircuit) Define(api frontend.API) error {
 	for i := range outs {
 		if i < len(ent.want) {
 			api.AssertIsEqual(outs[i], ent.want[i])
+		} else {
+			api.AssertIsEqual(outs[i], outs[i]) // every result must at least be a usable value
 		}
 	}
 	return nil
